@@ -493,6 +493,13 @@ func reifyMergeValue(
 	oldValue reflect.Value, val value,
 ) (reflect.Value, Error) {
 	old := chaseValueInterfaces(oldValue)
+	if old.Kind() != reflect.Ptr && old.Kind() != reflect.Interface && !old.CanAddr() {
+		// a composite held by value in an interface can not be written to in place:
+		// the setting is merged into a copy, which the interface holds afterwards
+		tmp := reflect.New(old.Type()).Elem()
+		tmp.Set(old)
+		old, oldValue = tmp, tmp
+	}
 	t := old.Type()
 	old = chaseValuePointers(old)
 	if (old.Kind() == reflect.Ptr || old.Kind() == reflect.Interface) && old.IsNil() {
